@@ -3,6 +3,7 @@ package main
 import (
 	"fmt"
 	"os"
+	"regexp"
 	"runtime/debug"
 	"sort"
 	"strings"
@@ -43,6 +44,7 @@ type HarnessOpts struct {
 }
 
 type HarnessRun struct {
+	Prop      string
 	Name      string
 	Tier      string
 	LoopBound int
@@ -263,7 +265,12 @@ func trailStr(t []decision) string {
 	return s
 }
 
+var propLabelRe = regexp.MustCompile(`^(C[0-9]{2,3})\.`)
+
 func (p *Path) assertion(label string, cond *Term) {
+	if m := propLabelRe.FindStringSubmatch(label); m != nil && p.hr.Prop != "" && m[1] != p.hr.Prop {
+		return // belongs to another property's check
+	}
 	p.obligation(label, "assert", "", cond)
 	// continue under the asserted condition so later obligations are independent
 	p.Assume(cond)
@@ -288,8 +295,9 @@ func (p *Path) reach(label string) {
 
 // ---------- exploration ----------
 
-func (e *Engine) RunHarness(name, tier string, opts HarnessOpts, known map[string]bool) *HarnessRun {
+func (e *Engine) RunHarness(prop, name, tier string, opts HarnessOpts, known map[string]bool) *HarnessRun {
 	hr := newHarnessRun(name, tier, known)
+	hr.Prop = prop
 	if opts.LoopBound > 0 {
 		hr.LoopBound = opts.LoopBound
 	}
